@@ -13,5 +13,6 @@ import sys
 sys.path[:0]=['lib','engines/mirsym']
 import kernels
 print(kernels.emit_mir())
-print(kernels.emit_mir_parser())"
+print(kernels.emit_mir_parser())
+print(kernels.emit_mir_sqlparser())"
 echo setup ok
